@@ -46,6 +46,28 @@ type OTSpec struct {
 	Broken     string     `json:"broken,omitempty"`     // "" | parse | exec
 }
 
+// otHostedClusterExpr renders the name of the hosted cluster the template's namespace belongs to ("none" if it belongs to
+// none, "nohs" outside HyperShift).
+// (templates run with missingkey=error: absent parts of the environment have to be asked for with hasKey)
+const otHostedClusterExpr = `{{ if hasKey .environment "hyperShift" }}{{ with (get .environment.hyperShift "hostedCluster") }}{{ .metadata.name }}{{ else }}none{{ end }}{{ else }}nohs{{ end }}`
+
+// hostedClusterOf is the reference for otHostedClusterExpr: HyperShift keeps the control plane of HostedCluster <ns>/<name> in
+// the namespace <ns>-<name>.
+func hostedClusterOf(store *kubesim.Store, hyperShift bool, tmplNS string) string {
+	if !hyperShift {
+		return "nohs"
+	}
+	if tmplNS == "" {
+		return "none"
+	}
+	for _, k := range store.Keys() {
+		if k.Kind == "HostedCluster" && k.Namespace+"-"+strings.ReplaceAll(k.Name, ".", "-") == tmplNS {
+			return k.Name
+		}
+	}
+	return "none"
+}
+
 const otName = "ot"
 const otTarget = "ot-target"
 
@@ -96,6 +118,8 @@ func (s OTSpec) templateText() string {
 			sb.WriteString(fmt.Sprintf("  %s: \"%s\"\n", f.DataKey, arg))
 		case "env":
 			sb.WriteString(fmt.Sprintf("  %s: {{ .environment.kubernetes.version | quote }}\n", f.DataKey))
+		case "hc":
+			sb.WriteString(fmt.Sprintf("  %s: \"%s\"\n", f.DataKey, otHostedClusterExpr))
 		}
 	}
 	if len(s.Fields) == 0 && s.Broken != "exec" {
@@ -144,7 +168,7 @@ type otExpectation struct {
 	Sources []kubesim.Key     // sources that exist and are used
 }
 
-func otExpect(store *kubesim.Store, s OTSpec, tmplNS string, kubeVersion string) otExpectation {
+func otExpect(store *kubesim.Store, s OTSpec, tmplNS string, kubeVersion string, hyperShift bool) otExpectation {
 	exp := otExpectation{Data: map[string]string{}}
 	config := map[string]string{}
 	for _, src := range s.Sources {
@@ -222,6 +246,8 @@ func otExpect(store *kubesim.Store, s OTSpec, tmplNS string, kubeVersion string)
 			exp.Data[f.DataKey] = arg
 		case "env":
 			exp.Data[f.DataKey] = kubeVersion
+		case "hc":
+			exp.Data[f.DataKey] = hostedClusterOf(store, hyperShift, tmplNS)
 		}
 	}
 	if len(s.Fields) == 0 {
@@ -294,7 +320,7 @@ func (m *C18Monitor) AfterPass(r *Runner, pv *PassView) error {
 	}
 	// expectation on the store content as of the start of the pass == now for sources (only PKO label patches happened)
 	env := PkgEnvs[mod(r.EnvIdx, len(PkgEnvs))]
-	exp := otExpect(r.W.Store, spec, tmplNS, env.KubeVersion)
+	exp := otExpect(r.W.Store, spec, tmplNS, env.KubeVersion, r.HyperShift)
 	m.Classes[exp.Class]++
 	targetKind, targetGroup := "ConfigMap", ""
 	if spec.TargetKind == "ClusterWidget" {
@@ -428,7 +454,7 @@ func (m *C18Monitor) AfterStep(r *Runner, idx int, st Step) error {
 			continue
 		}
 		env := PkgEnvs[mod(r.EnvIdx, len(PkgEnvs))]
-		exp := otExpect(r.W.Store, spec, k.Namespace, env.KubeVersion)
+		exp := otExpect(r.W.Store, spec, k.Namespace, env.KubeVersion, r.HyperShift)
 		inv := engine.Conditions(tmpl)["package-operator.run/Invalid"].Status
 		if exp.Class != "" {
 			if inv != "True" {
@@ -538,6 +564,34 @@ func init() {
 					_ = c.Delete(r.W.Ctx, engine.U(o))
 				}
 			}
+		})
+		return nil
+	}
+	// hostedCluster creates (On) or deletes HostedCluster ns/<a|b>, whose control-plane namespace is ns-a / ns-b
+	extraOps["hostedCluster"] = func(r *Runner, st Step) error {
+		name := []string{"a", "b"}[mod(st.I, 2)]
+		r.W.ActAs("thirdparty", func(c client.Client) {
+			nsObj := &unstructured.Unstructured{Object: map[string]any{"apiVersion": "v1", "kind": "Namespace", "metadata": map[string]any{"name": "ns"}}}
+			_ = c.Create(r.W.Ctx, nsObj)
+			hc := &unstructured.Unstructured{Object: map[string]any{"apiVersion": "hypershift.openshift.io/v1beta1", "kind": "HostedCluster",
+				"metadata": map[string]any{"name": name, "namespace": "ns"}}}
+			if st.On {
+				if c.Create(r.W.Ctx, hc) == nil {
+					r.Labels["hosted-cluster-created"] = true
+				}
+			} else if c.Delete(r.W.Ctx, hc) == nil {
+				r.Labels["hosted-cluster-deleted"] = true
+			}
+		})
+		return nil
+	}
+	// createTemplate2: a second, simple ObjectTemplate in the other namespace that renders the hosted cluster of *its* namespace
+	extraOps["createTemplate2"] = func(r *Runner, st Step) error {
+		r.W.ActAs("user", func(c client.Client) {
+			o := &corev1alpha1.ObjectTemplate{}
+			o.Name, o.Namespace = "ot2", engine.NSOther
+			o.Spec.Template = "apiVersion: v1\nkind: ConfigMap\nmetadata:\n  name: ot2-target\ndata:\n  hc: \"" + otHostedClusterExpr + "\"\n"
+			_ = c.Create(r.W.Ctx, o)
 		})
 		return nil
 	}
